@@ -81,7 +81,7 @@ def run(tier, seed):
                 mw = build_mw(rules, rng.random() < 0.4, real_tmp)
                 rels = [""] + [rel[len("root/"):] for rel, k, p in nodes if rel.startswith("root/")]
                 for rel in rels:
-                    for up in fstree.spellings(rng, rel)[:5] + [rng.choice(fstree.spellings(rng, rel))]:
+                    for up in fstree.spellings(rng, rel)[:5] + [rng.choice(fstree.spellings(rng, rel))] + fstree.encoded_slash_spellings(rel)[:(1 if tier == "quick" else 3)]:
                         up = up + rng.choice(["", "", "?q=1"])
                         try:
                             req = GeminiRequest.from_line("gemini://h" + up)
